@@ -79,6 +79,8 @@ type PtrDesc struct {
 }
 
 type VC struct {
+	rangeDone    map[string]bool // range-form side axioms already emitted
+	noRangeForms bool
 	w        *World
 	fn       *ssa.Function
 	contract *Contract
